@@ -7,6 +7,7 @@ import logging
 
 import txaio
 
+from . import c18_codec as C
 from . import c18_lib as L
 from .wamp_harness import Outcome, RouterPeer
 from .world import make_world
@@ -107,10 +108,24 @@ class Pair:
         self._ids = 1000
         self.torn = False
         self._register()
+        # payload transparency: a codec at both sides (same keys) or at the caller only
+        self.codec = cfg.get("codec")
+        self.codecs = {}
+        self.sealed = 0
+        if self.codec:
+            self.codecs["caller"] = C.install(self.a, self.codec, "caller")
+            if self.codec["sides"] == "both":
+                self.codecs["callee"] = C.install(self.b, self.codec, "callee")
 
     def next_id(self):
         self._ids += 1
         return self._ids
+
+    def _call_args(self, m):
+        """application args of a CALL the stub received (the caller's codec may have encoded them)"""
+        if self.codec and C.is_encoded(m, 4):
+            return C.open_payload(self.codec, m[2], m[3], m[4])[1]
+        return m[4] if len(m) > 4 else None
 
     # -- callee set-up ----------------------------------------------------------------------------
     def _register(self):
@@ -176,7 +191,7 @@ class Pair:
         proc = PROC_NATIVE if mode == "native" else PROC_PLAIN
         self.outcomes[idx] = Outcome(self.a.call(proc, idx))
         calls = [x for x in self.A.recv() if x[0] == CALL]
-        assert len(calls) == 1 and calls[0][3] == proc and calls[0][4] == [idx], calls
+        assert len(calls) == 1 and calls[0][3] == proc and self._call_args(calls[0]) == [idx], calls
         self.call_req[idx] = calls[0][1]
         inv = self.next_id()
         self.inv_to_call[inv] = idx
@@ -217,6 +232,12 @@ class Pair:
         self.A.send([ERROR, CALL, self.call_req[idx], dict(details or {}), uri] + list(tail))
         self.A.recv()
 
+    def seal_foreign(self, uri, args, kwargs):
+        """a foreign callee holding the same keys: -> (details, [payload]) or None when it has no key for the URI"""
+        self.sealed += 1
+        r = C.seal_payload(self.codec, uri, args, kwargs, self.sealed)
+        return None if r is None else (r[0], [r[1]])
+
 
 PROC_MID = "com.c18.mid"
 PROC_BACKEND = "com.c18.backend"
@@ -249,6 +270,10 @@ class Chain:
         self._ids = 2000
         self.torn = False
         self._register()
+        self.codec = cfg.get("codec")
+        if self.codec:
+            for name, rp in self.peers.items():
+                C.install(rp.session, self.codec, name)
 
     def next_id(self):
         self._ids += 1
@@ -356,7 +381,7 @@ class Chain:
             for m in self.M.recv():
                 progress = True
                 if m[0] == CALL and m[3] in (PROC_BACKEND, PROC_BACKEND_NATIVE):
-                    idx = m[4][0]
+                    idx = (C.open_payload(self.codec, m[2], m[3], m[4])[1] if self.codec and C.is_encoded(m, 4) else m[4])[0]
                     self.mid_req[idx] = m[1]
                     inv = self.next_id()
                     self.backend_inv[inv] = idx
@@ -375,10 +400,16 @@ class Chain:
                 break
         return events
 
+    def _enc_details(self, m):
+        """a router forwards the payload-transparency attributes along with an opaque payload"""
+        if self.codec and C.is_encoded(m, 5) and isinstance(m[3], dict):
+            return {k: v for k, v in m[3].items() if k in ("enc_algo", "enc_serializer", "enc_key")}
+        return {}
+
     def forward_to_mid(self, idx, m):
-        self.M.send([ERROR, CALL, self.mid_req[idx], {}, m[4]] + list(m[5:]))
+        self.M.send([ERROR, CALL, self.mid_req[idx], self._enc_details(m), m[4]] + list(m[5:]))
         return self.pump()
 
     def forward_to_front(self, idx, m):
-        self.F.send([ERROR, CALL, self.front_req[idx], {}, m[4]] + list(m[5:]))
+        self.F.send([ERROR, CALL, self.front_req[idx], self._enc_details(m), m[4]] + list(m[5:]))
         self.F.recv()
